@@ -447,6 +447,15 @@ impl Palette {
     /// .
     /// # Panics
     pub fn export_palette(&self, format: &PaletteFormat) -> Vec<u8> {
+        // every metadata value sits on one comment line; a line break inside it would be read back as palette data
+        let one_line = |s: &str| s.replace(['\r', '\n'], " ");
+        let mut pal = self.clone();
+        (pal.title, pal.author, pal.description) = (one_line(&self.title), one_line(&self.author), one_line(&self.description));
+        pal.colors.iter_mut().for_each(|c| c.name = c.name.as_deref().map(one_line));
+        pal.export_lines(format)
+    }
+
+    fn export_lines(&self, format: &PaletteFormat) -> Vec<u8> {
         match format {
             PaletteFormat::Hex => {
                 let mut res = String::new();
